@@ -3,12 +3,22 @@
 #include <yaclib/fault/detail/atomic.hpp>
 
 #include <atomic>
+#ifdef YACLIB_VERIF
+#  include <yaclib/fault/detail/verif.hpp>
+#endif
 
 namespace yaclib::detail {
 
 static std::uint32_t sAtomicFailFrequency = 13;
 
 bool ShouldFailAtomicWeak() {
+#ifdef YACLIB_VERIF
+  if (verif::gHooks.fail_weak != nullptr) {
+    if (const int r = verif::gHooks.fail_weak(); r >= 0) {
+      return r != 0;
+    }
+  }
+#endif
   auto freq = sAtomicFailFrequency;
   return freq != 0 && GetRandNumber(freq) == 0;
 }
